@@ -1330,4 +1330,14 @@ theorem resolveDeclare_some {nst : Nat} {a : DeclareArgs} {p : Proc} {r : Resolv
   · obtain ⟨h1, h2⟩ := classifyTable_some h
     rw [h2, h1]
 
+/-- argument resolution for `declare name version directory -m <path>`: the directory exists, the path is not
+below the database directory of the stack and holds a file with content `c` -/
+theorem resolveDeclare_explicit_path {nst : Nat} {a : DeclareArgs} {p : Proc} {d q : Dir} {c : Nat}
+    (hdir : a.dir = some d) (htag : a.tag = none) (htn : a.table = .path q) (hstack : a.stack = none)
+    (hex : p.dirExists d = true) (hroot : d.root < nst) (hq : underUpsDb d.root q = false)
+    (hc : p.fileContent q = some c) :
+    resolveDeclare nst a p = some ⟨d, .ext q, d.root, some c, a.ext, a.ext⟩ := by
+  unfold resolveDeclare resolveDirTable targetOf classifyTable
+  simp [hdir, htag, htn, hstack, hex, hroot, hq, hc]
+
 end EupsModel.Db
